@@ -2,7 +2,7 @@
 import itertools
 import random
 
-from vlib.par import pmap
+from vlib.par import pmap, timeout_failure
 
 PROPERTY = 'C17'
 LEVEL = 'other'
@@ -116,6 +116,37 @@ def _check(specs):
         fail('search-nontermination', f"search exceeded {STEP_BUDGET} tightening steps on one item")
     except Exception as e:
         fail('search-exception:' + type(e).__name__, f"search raised {type(e).__name__}: {e}")
+    # the search object itself follows the Bounded protocol (C04 anchors search.py:135-241): driven one step at a time
+    try:
+        items = _mk(specs)
+        s = IterativeTighteningSearch(iter(items))
+        prev = s.bounds()
+        n = 0
+        while True:
+            r = s.tighten_bounds()
+            cur = s.bounds()
+            n += 1
+            if cur.lower_bound < prev.lower_bound or cur.upper_bound > prev.upper_bound:
+                fail('search-step-widened', f"step {n}: search bounds went from {prev} to {cur}")
+                break
+            if not (cur.lower_bound <= mn <= cur.upper_bound):
+                fail('search-step-unsound', f"step {n}: search bounds {cur} exclude the minimum final cost {mn}")
+                break
+            if r and cur.lower_bound == prev.lower_bound and cur.upper_bound == prev.upper_bound:
+                fail('search-step-true-without-progress', f"step {n}: tighten_bounds() returned True with bounds unchanged at {cur}")
+                break
+            if not r:
+                if cur.lower_bound != cur.upper_bound:
+                    fail('search-step-false-not-definitive', f"step {n}: tighten_bounds() returned False with bounds {cur}")
+                break
+            if n > 10 * STEP_BUDGET:
+                fail('search-nontermination', f"more than {10 * STEP_BUDGET} search steps")
+                break
+            prev = cur
+    except StepBudget:
+        fail('search-nontermination', f"stepwise search exceeded {STEP_BUDGET} tightening steps on one item")
+    except Exception as e:
+        fail('search-step-exception:' + type(e).__name__, f"stepwise search raised {type(e).__name__}: {e}")
     # sort
     try:
         items = _mk(specs)
@@ -174,7 +205,7 @@ def bounded(tier, seed, repo_root):
     triples = [tuple(rnd.choice(types) for _ in range(3)) for _ in range(n3)]
     quads = [tuple(rnd.choice(types) for _ in range(4)) for _ in range(n3 // 4)]
     jobs = colls + triples + quads
-    res = pmap(_check, jobs, repo_root)
+    res = pmap(_check, jobs, repo_root, job_timeout=60, on_timeout=timeout_failure('C17'))
     fails = [f for fs in res for f in fs]
     return [{
         'name': 'C17.synthetic-bounded-items',
